@@ -1,6 +1,6 @@
 (* C18 - Search info lines are well-formed and within score bounds (model-level part). *)
 From Walleye Require Import Model.Search Proofs.MateText Proofs.RootInfo Proofs.RootOrder.
-From Walleye Require Import Spec.Abs Proofs.LegalMoves Proofs.RootPv.
+From Walleye Require Import Spec.Abs Proofs.LegalMoves Proofs.RootPv Proofs.TightRange.
 Open Scope Z_scope.
 
 (* the shape of the line: fixed keywords in fixed order around the numbers *)
@@ -43,6 +43,22 @@ Theorem C18_first_pv_move_is_legal : forall zt osort k,
     line = s_info_pv ++ (32%N :: show_point a ++ show_point c ++ ponder_text tl) ++ rest.
 Proof. intros zt osort k HI fuel b t ev s d e line. exact (first_pv_move_is_legal zt osort k HI fuel b t ev s d e line). Qed.
 
+(* Y is never 0: every evaluation a search reports - any depth, any expiry index, any ordering oracle - lies in
+   [-(MATE_SCORE - 2), MATE_SCORE - 1] (the values of a node are bounded relative to its window and its ply:
+   Proofs/TightRange.v), and on that range the number printed after `score mate` is non-zero.  The fuel bound only
+   says the search tree is at most 2999 plies high *)
+Theorem C18_mate_number_is_never_zero : forall zt osort k fuel,
+  1 <= 30000 - 10 * Z.of_nat fuel ->
+  forall b t ev s d e line n,
+  get_best_move zt osort k fuel b t = Ok (ev, s) -> In (Info d e line) ev ->
+  - (MATE_SCORE - 2) <= e <= MATE_SCORE - 1 /\ (mate_number e = Some n -> n <> 0).
+Proof.
+  intros zt osort k fuel HF b t ev s d e line n H Hin. split.
+  - pose proof (reported_scores_tight zt osort k fuel HF b t ev s H) as F. rewrite Forall_forall in F. exact (F _ Hin).
+  - exact (reported_mate_number_nonzero zt osort k fuel HF b t ev s d e line n H Hin).
+Qed.
+
+Print Assumptions C18_mate_number_is_never_zero.
 Print Assumptions C18_first_pv_move_is_legal.
 Print Assumptions C18_reported_scores_in_range.
 (* the reports of one search, newest first: every report lies strictly above all earlier ones - a later depth, or the
